@@ -547,3 +547,55 @@ prep_filt_afb2d_nonsep_contract = _prep_nonsep(True)
 prep_filt_sfb2d_nonsep_contract = _prep_nonsep(False)
 CONTRACTS['dwt.lowlevel:prep_filt_afb2d_nonsep'] = prep_filt_afb2d_nonsep_contract
 CONTRACTS['dwt.lowlevel:prep_filt_sfb2d_nonsep'] = prep_filt_sfb2d_nonsep_contract
+
+
+# ---------------------------------------------------------------------------
+# LEMMA: closed form of synthesis-after-analysis (spec level, symbolic taps)
+#   idwt(dwt(x))[n] = sum_{u,v} (dec_lo[u] rec_lo[v] + dec_hi[u] rec_hi[v]) [parity(n,v)] x_ext[n + L-1-u-v]
+# Together with the TABLE fact  Phi_c(d) = delta(d)  (cbv/tables.py) this is perfect
+# reconstruction on the original extent, for every extension mode.
+# ---------------------------------------------------------------------------
+def _pr_axis(read, Nn, w, mode):
+    """returns f(n) = closed form along one axis; read(j) reads the signal"""
+    L_ = w.a['dec_lo'].shape[0]
+    dl, dh = w.a['dec_lo'].snap(), w.a['dec_hi'].snap()
+    rl, rh = w.a['rec_lo'].snap(), w.a['rec_hi'].snap()
+    per = mode in ('per', 'periodization')
+    Ne = simp(I(Nn) + I(Nn) % 2)
+
+    def f(n):
+        def over_v(v):
+            par = bk.mod(n + bk.div(L_, 2) - 1 - v, 2) == 0 if per else bk.mod(n + L_ - 2 - v, 2) == 0
+
+            def over_u(u):
+                k = n + L_ - 1 - v - u
+                if per:
+                    j = bk.wrap(k, Ne)
+                    xv = bk.when(j < Nn, lambda: read(j)) + bk.when(bk.and_(j >= Nn, j < Ne), lambda: read(Nn - 1))
+                else:
+                    xv = ZERO
+                    for cond, idx in specs.ext_alts(bk, mode, k, Nn):
+                        xv = xv + bk.when(cond, lambda idx=idx: read(idx))
+                return (dl([u]) * rl([v]) + dh([u]) * rh([v])) * xv
+            return bk.when(par, lambda: bk.sum(0, L_, over_u))
+        return bk.sum(0, L_, over_v)
+    return f
+
+
+def pr_closed_form_1d(A, w, mode):
+    Bn, Cc, Nn = A.shape
+    rd = A.snap()
+    return fresh_like((Bn, Cc, Nn), lambda idx: lift(_pr_axis(lambda j: rd([idx[0], idx[1], j]), Nn, w, mode)(idx[2])), A)
+
+
+def pr_closed_form_2d(A, wcol, wrow, mode):
+    Bn, Cc, Hh, Ww = A.shape
+    rd = A.snap()
+
+    def elem(idx):
+        n_, c_, i, j = idx
+
+        def rowsig(r):
+            return lift(_pr_axis(lambda q: rd([n_, c_, r, q]), Ww, wrow, mode)(j))
+        return lift(_pr_axis(rowsig, Hh, wcol, mode)(i))
+    return fresh_like((Bn, Cc, Hh, Ww), elem, A)
